@@ -66,6 +66,7 @@ PINNED = {
     "nested_svg_viewbox_equals_viewport_with_offset": '<svg xmlns="http://www.w3.org/2000/svg" viewBox="0 0 100 100"><svg x="10" y="10" width="50" height="50" viewBox="10 10 50 50"><rect x="10" y="10" width="20" height="20"/></svg></svg>',
     "empty_subpath_changes_gradient_bbox": '<svg xmlns="http://www.w3.org/2000/svg" viewBox="0 0 100 100"><defs><linearGradient id="g"><stop offset="0" stop-color="red"/><stop offset="1" stop-color="blue"/></linearGradient></defs><path d="M0,0 L0,0 M50,50 h40 v40 h-40 z" fill="url(#g)"/></svg>',
     "paint_set_two_levels_up": '<svg xmlns="http://www.w3.org/2000/svg" viewBox="0 0 40 40" fill="none" stroke="black" stroke-width="2"><g><g><line x1="5" y1="5" x2="30" y2="5"/><path d="M5,15 L30,15"/></g></g><g stroke="none"><g><rect x="5" y="25" width="10" height="10" fill="red"/></g></g></svg>',
+    "no_viewbox_gradient_under_transform": '<svg xmlns="http://www.w3.org/2000/svg"><defs><linearGradient id="g"><stop offset="0" stop-color="red"/><stop offset="1" stop-color="blue"/></linearGradient></defs><g transform="translate(5 5) rotate(10)"><rect width="20" height="10" fill="url(#g)"/></g></svg>',
     "clip_rule_on_the_clippath": '<svg xmlns="http://www.w3.org/2000/svg" viewBox="0 0 10 10"><clipPath id="c" clip-rule="evenodd"><path d="M0,0 H8 V8 H0 Z M2,2 H6 V6 H2 Z"/></clipPath><rect width="9" height="9" clip-path="url(#c)" fill="red"/></svg>',
     "use_clip_target_transform": '<svg xmlns="http://www.w3.org/2000/svg" xmlns:xlink="http://www.w3.org/1999/xlink" viewBox="0 0 30 30"><clipPath id="c"><rect width="10" height="10"/></clipPath><defs><rect id="t" width="20" height="20" transform="translate(5 0)"/></defs><use xlink:href="#t" clip-path="url(#c)"/></svg>',
     "two_nested_svgs_clip_ids": f'<svg {NS} viewBox="0 0 100 100"><svg x="0" y="0" width="40" height="40"><rect width="60" height="60" fill="red"/></svg><svg x="50" y="50" width="40" height="40"><rect width="60" height="60" fill="blue"/></svg></svg>',
